@@ -355,6 +355,9 @@ int main(int argc, char** argv)
     }
 
     size_t spaced_bins = std::ceil(ps_bins*nbuckets*spacing_ps);
+    // the last bucket starts at (nbuckets-1)*spacing_bins and is ps_bins wide
+    spaced_bins = std::max( spaced_bins
+                          , static_cast<size_t>(nbuckets-1)*spacing_bins+ps_bins);
     if (opts.getRoundPadding()) {
         spaced_bins = upper_power_of_two(spaced_bins);
     }
